@@ -45,7 +45,7 @@ type c11Case struct {
 	SubjectPos int         `json:"subject_pos"`
 	Remaining  string      `json:"remaining"` // none | plain | nested-selector | call-selector | index-selector | in-func-lit
 	Sites      int         `json:"sites"`
-	SecondUsed bool        `json:"second_used"` // the second deleted import is still used
+	SecondUsed bool        `json:"second_used"`          // the second deleted import is still used
 	PathStyle  string      `json:"path_style,omitempty"` // "" plain | gopkg (gopkg.in/yaml.v2 -> v3) | slashv (example.com/codec/v2 -> v3)
 }
 
